@@ -320,9 +320,12 @@ async def main():
     lf = LockFile(path, 1000, 1100)
     log = os.open(path + ".log", os.O_WRONLY | os.O_APPEND | os.O_CREAT)
 
+    # a process talks to several terminals; the tasks that talk to one
+    # terminal share its Terminal object and hence its lock object
+    locks = {no: ParallelMailboxLock(lf, no) for no in (1042, 1043)}
+
     async def user(no):
-        # one task per terminal: a process talks to several terminals
-        lock = ParallelMailboxLock(lf, no)
+        lock = locks[no]
         for i in range(m):
             async with lock:
                 c = lock.next_counter()
@@ -335,7 +338,7 @@ async def main():
             if rng.random() < 0.3:
                 time.sleep(rng.random() * 0.001)
             await asyncio.sleep(0)
-    await asyncio.gather(user(1042), user(1043))
+    await asyncio.gather(user(1042), user(1043), user(1042))
 asyncio.run(main())
 '''
 
